@@ -5,6 +5,7 @@ import (
 	"github.com/metrico/qryn/reader/prof/parser"
 	shared2 "github.com/metrico/qryn/reader/prof/shared"
 	v1 "github.com/metrico/qryn/reader/prof/types/v1"
+	"strconv"
 	"strings"
 )
 
@@ -118,7 +119,7 @@ func populateTypeId(script *parser.Script, tId *shared2.TypeId) {
 	// element of sample_types_units
 	strTypeId := strings.Join([]string{tId.Tp, tId.SampleType, tId.SampleUnit, tId.PeriodType, tId.PeriodUnit}, ":")
 	script.Selectors = append(script.Selectors, parser.Selector{
-		Name: "__profile_type__", Op: "=", Val: parser.Str{Str: "`" + strTypeId + "`"},
+		Name: "__profile_type__", Op: "=", Val: parser.Str{Str: strconv.Quote(strTypeId)},
 	})
 }
 
